@@ -52,6 +52,10 @@ func (p *Program) Describe(ci ssa.CallInstruction) *CallDesc {
 }
 
 func (p *Program) calleeName(f *ssa.Function) string {
+	// instantiations of generic functions are named after their origin (slices.IndexFunc, not slices.IndexFunc[...])
+	if o := f.Origin(); o != nil && o != f {
+		return p.calleeName(o)
+	}
 	if f.Pkg != nil && p.InModule(f.Pkg.Pkg.Path()) {
 		return p.FuncKey(f)
 	}
